@@ -27,6 +27,8 @@ KNOWN_CLASSES = {
     "size.ext-root-above-64K.uper": lambda f, s: s == "uper" and "size.ext.ub>=64K" in f,
     "kmstring.size-extension.alphabet-dropped.uper": lambda f, s: s == "uper" and "kmstr.size-ext-outside" in f,
     "set.no-oer-uper": lambda f, s: s in ("oer", "uper") and "SET" in f,
+    # NativeEnumerated's PER codec takes "index in the value-sorted map < number of root items" for "is a root item"
+    "enum.addition-below-root.uper": lambda f, s: s == "uper" and "enum.addition-below-root" in f,
 }
 
 
